@@ -239,8 +239,8 @@ pub fn lin_cfg_for(ctx: &Ctx, arch: Arch) -> LinCfg {
             hard_cap: 14,
             ..LinCfg::default()
         },
-        Arch::X86 => LinCfg { max_env: 24, size: ctx.tier.pick(36, 60), max_main_params: 5, ..LinCfg::default() },
-        Arch::A64 => LinCfg { max_env: 24, size: ctx.tier.pick(36, 60), max_main_params: 7, ..LinCfg::default() },
+        Arch::X86 => LinCfg { max_env: 24, size: ctx.tier.pick(36, 60), max_main_params: 5, wide: 50, floor: (5, 10), ..LinCfg::default() },
+        Arch::A64 => LinCfg { max_env: 24, size: ctx.tier.pick(36, 60), max_main_params: 7, wide: 128, floor: (11, 17), ..LinCfg::default() },
     }
 }
 
@@ -253,6 +253,28 @@ pub struct LinCase {
 pub fn decode_lin(cfg: &LinCfg, bytes: &[u8]) -> LinCase {
     let (prog, tuples, gstats) = gen_linear(bytes, cfg, 2);
     LinCase { prog, tuples, gstats }
+}
+
+/// third domain of the backend checks: a directly generated Core program (gen_core) taken through
+/// focusing, shrinking and linearization; None if a stage fails (decided by C12)
+pub fn decode_core_lin(ctx: &Ctx, arch: Arch, bytes: &[u8]) -> Option<LinCase> {
+    let cfg = crate::gen_core::CoreCfg {
+        size: ctx.tier.pick(26, 40),
+        max_defs: 3,
+        max_main_params: if arch == Arch::A64 { 7 } else { 5 },
+        reuse: 60,
+        allow_print: arch != Arch::Rv,
+    };
+    let (prog, tuples, _) = crate::gen_core::gen_core(bytes, &cfg);
+    let linear = pipeline::focus(prog).and_then(pipeline::shrink).and_then(pipeline::linearize).ok()?;
+    Some(LinCase { prog: linear, tuples, gstats: LinStats::default() })
+}
+
+pub fn run_core_lin_case(ctx: &Ctx, arch: Arch, bytes: &[u8], with_audit: bool) -> (CaseResult, Vec<BackendRun>) {
+    match decode_core_lin(ctx, arch, bytes) {
+        Some(c) => run_lin_case(ctx, arch, &c, with_audit),
+        None => (CaseResult::Discard("an earlier stage failed on the generated Core program (decided by C12)".into()), vec![]),
+    }
 }
 
 pub fn codegen_linear(prog: &axcut::syntax::Prog, arch: Arch) -> Result<String, CaseResult> {
